@@ -89,6 +89,15 @@ def isMethodVal : Val → Bool
   | .fn id => id.startsWith "method:"
   | _ => false
 
+def elemTMatches : ElemT → Val → Bool
+  | .iface, _ => true
+  | .num k, .int k' _ => k == k'
+  | .num .float64, .f64 _ => true
+  | .num .float32, .f32 _ => true
+  | .str, .str _ => true
+  | .bool, .bool _ => true
+  | _, _ => false
+
 /-- `runtime.fetch(from, i, nilsafe)` -/
 def fetchV (fromV i : Val) (nilsafe : Bool) : R Val :=
   let fallback : R Val := if nilsafe then .ok .nil else .error .type_
@@ -107,6 +116,9 @@ def fetchV (fromV i : Val) (nilsafe : Bool) : R Val :=
     match i with
     | .str k => .ok ((lookupKv k kvs).getD .nil)
     | _ => .error .type_          -- reflect: key of the wrong type / invalid key
+  | .set t _ =>
+    -- map[K]struct{}: present or not, the element is the empty struct; a key of another type is a reflect panic
+    if elemTMatches t i && !i.isNilLike then .ok (.struct "struct {}" false []) else .error .type_
   | .struct _ _ fs =>
     match i with
     | .str k =>
@@ -143,15 +155,6 @@ def sliceV (a fromV toV : Val) : R Val :=
     | .error e, _ => .error e
     | _, .error e => .error e
   | _ => .error .type_
-
-def elemTMatches : ElemT → Val → Bool
-  | .iface, _ => true
-  | .num k, .int k' _ => k == k'
-  | .num .float64, .f64 _ => true
-  | .num .float32, .f32 _ => true
-  | .str, .str _ => true
-  | .bool, .bool _ => true
-  | _, _ => false
 
 /-- `runtime.in(needle, array)` -/
 def inV (needle array : Val) : R Bool :=
